@@ -156,7 +156,9 @@ def run_c05(tier, seed, procs=16):
         sig = f"C05|{r['case']}|{r['status']}|{','.join(r['diff'])[:200]}"
         if r["status"] == "D3": sig = "D3"
         elif "FAIL:recompute" in r["case"] and r["status"] == "baseline-disturbed-after-creation": sig = "D5"
-        elif r["shared"]: sig = "D1"
+        # shared job (D1): which of the same-id dict entries is the registered child may flip; that shows as ':identity' differences
+        # only.  Lost or added dependency edges (id multisets), values and links are never excused.
+        elif r["shared"] and r["diff"] and all(x.endswith(":identity") for x in r["diff"]): sig = "D1"
         viol.append({"signature": sig, "what": f"C05 {r['case']}: {r.get('outcome')}: {r['status']} {r['diff'][:6]}", "input": {"case": r["case"]}})
     return {"evaluations": len(res), "distinct_nontrivial": len(nontrivial),
             "rule": "one case = (topology, change list among numeric / link / list / mixed / invalid / failing-in-recomputation, simulation date among first, interior, last common hour, before, after, naive, toggle sequence); "
